@@ -16,6 +16,7 @@ Decided (Moslem <-> civil conversion; necessary conditions of the day bijection)
 That the recipes equal the tabular Computus / arithmetic Hebrew calendar is the content of the published
 algorithms and is trusted, not decided."""
 import ast
+import os
 from fractions import Fraction
 
 from .. import symx, terms as T
@@ -409,13 +410,59 @@ def recipes(repo, rep):
         gb, jb = (t[2], t[3]) if t[1][1] in ("GtE", "Gt") else (t[3], t[2])
         if thr != 1583 or t[1][1] not in ("GtE", "Gt", "Lt", "LtE"):
             detail = "calendar switch at %s instead of 1583" % thr
-        elif gb[0] == "tuple" and jb[0] == "tuple" and len(gb) == 3 and len(jb) == 3:
-            okg = alg.equal(gb[1], greg[0]) and alg.equal(gb[2], greg[1])
-            okj = alg.equal(jb[1], jul[0]) and alg.equal(jb[2], jul[1])
-            ok = okg and okj
-            detail = "Gregorian branch %s, Julian branch %s the published recipe" % ("equals" if okg else "DIFFERS from", "equals" if okj else "DIFFERS from")
+        else:
+            def branch_ok(code, ref, lead, others):
+                """term equality with the reference (month, day); failing that, both are shown to depend on the recipe's
+                intermediate terms only through the day offset from 22 March (lead + others, range 0..35) and are compared
+                on every value of that offset (the final offset -> date step may be written as a table, a branch, divmod ...)"""
+                from ..rules import eval_exact, NotEvaluable
+                if code[0] == "tuple" and len(code) == 3:
+                    try:
+                        if alg.equal(code[1], ref[0]) and alg.equal(code[2], ref[1]):
+                            return True
+                    except Exception:
+                        pass
+                OS = T.sym("NUM_OFF")
+                # every sum in the code's result that equals (reference offset + a constant) as a polynomial in the recipe's
+                # floor/mod atoms is replaced by NUM_OFF + constant; whatever still mentions the year afterwards shows a
+                # dependence on the intermediate terms beyond the offset
+                ref_off = T.add(lead, *others)
+                mp_ = {}
+                for x in T.walk(code):
+                    if x[0] == "add" and any(y[0] == "call" and y[1] in ("floor", "mod") for y in x[1:]) or \
+                            (x[0] == "add" and any(y[0] == "mul" and any(z[0] == "call" and z[1] in ("floor", "mod") for z in y[1:]) for y in x[1:])):
+                        try:
+                            r_ = alg.rat(T.sub(x, ref_off))
+                        except Exception:
+                            continue
+                        if r_.n.is_const() and r_.d.is_const():
+                            mp_[x] = T.add(OS, T.num(r_.n.const_value() / r_.d.const_value()))
+                g1 = T.subst(code, mp_) if mp_ else code
+                left = [x for x in T.walk(g1) if x == X or x == T.sym("NUM_YEAR")]
+                if os.environ.get("PMV_DEBUG"):
+                    print("DEBUG branch_ok left:", [T.show(x)[:60] for x in left[:4]], "g1:", T.show(g1)[:300])
+                if left or not mp_:
+                    return False
+                try:
+                    for off in range(0, 36):
+                        v = eval_exact(g1, {OS: Fraction(off)})
+                        want_ = ((off + 114) // 31, (off + 114) % 31 + 1)
+                        if not (isinstance(v, tuple) and len(v) == 2 and v[0] == want_[0] and v[1] == want_[1]):
+                            return False
+                except NotEvaluable:
+                    return None
+                return True
+            okg = branch_ok(gb, greg, h, [l, T.mul(N(-7), m)])
+            okj = branch_ok(jb, jul, d2, [e2])
+            if okg is None or okj is None:
+                detail = None
+            ok = okg is True and okj is True
+            if detail is not None:
+                detail = "Gregorian branch %s, Julian branch %s the published recipe" % ("equals" if okg else "DIFFERS from", "equals" if okj else "DIFFERS from")
     if ok:
         rep.ok("R-RECIPE", site, "Butcher's Gregorian algorithm from 1583, Meeus' Julian algorithm before: (month, day) terms equal the reference", obligation=True)
+    elif detail is None:
+        rep.inconcl("R-RECIPE", site, "Easter: the step from the day offset to (month, day) could not be executed on its 36 values")
     else:
         rep.violation("R-RECIPE", site, "easter-recipe", "Easter: " + detail, obligation=True)
     # ---- Pesach
